@@ -178,6 +178,7 @@ def wl_snapshots(ctx, rng, case):
         snap.boundary("after creation")
         snap.images, snap.keep = [], set(rng.sample(range(1, 40), 6))
         added = []
+        stale = None
         exported = []  # (path, bytes at the time of the export): an export is a copy - what happens to the filter later does not reach it
         # some histories hand every key over in ONE mutable buffer that the caller refills in place between the calls (a read loop)
         buf = bytearray() if hf is None and rng.random() < 0.2 else None
@@ -205,6 +206,15 @@ def wl_snapshots(ctx, rng, case):
                 snap.inflight = None
                 snap.boundary(f"after add #{len(added)}")
                 ctx.count("adds_under_snapshots")
+                if stale is not None and rng.random() < 0.5:
+                    # a CLOSED earlier handle on this file is still around and is asked to export: that is refused - and does not reach the
+                    # file the present handle has open (whatever numbers the operating system re-used for it)
+                    try:
+                        stale.export(sc.path("from-a-closed-handle", sub="exports"))
+                        ctx.count("exports_from_a_closed_handle_that_went_through")
+                    except Exception:
+                        ctx.count("refused_exports_from_a_closed_handle")
+                    snap.boundary("after a refused export on a closed earlier handle")
             elif r < 0.66 and k >= 2:
                 # a REFUSED addition: add_alt with a hash list that is too short raises part-way.  It is not a completed addition:
                 # the recorded count must not include it, now or after the next add / export / close (its bits may be there).
@@ -284,6 +294,7 @@ def wl_snapshots(ctx, rng, case):
                     given = jpath if form.startswith("abs") else os.path.join("..", "jump", "..", "filter.blm")
                     os.chdir(sc.other)
                     ctx.count("reopens_spelled_through_a_symlink_and_dotdot")
+                stale = f  # (the closed handle stays around: see the additions above)
                 f = P.BloomFilterOnDisk(given, **bl.kw_hash(hf))
                 os.chdir(rng.choice([cwd0, sc.other, d1]))
                 ctx.check(f.elements_added == orc.completed, f"reopened filter ({form}) reports another element count", got=f.elements_added, want=orc.completed)
